@@ -148,6 +148,16 @@ func (h *Histogram) WithLabelValues(labelValues ...string) *HistogramHandle {
 		return h.tombstoneHandle()
 	}
 
+	// Reserve the series slot before the handle is published. Publishing
+	// first and rolling back with series.Delete afterwards could remove a
+	// handle another goroutine had already obtained from the map (its
+	// emissions were then silently lost) or a different handle stored under
+	// the same hash in the meantime.
+	if n := h.seriesCount.Add(1); h.opts.MaxSeriesPerMetric > 0 && n > int64(h.opts.MaxSeriesPerMetric) {
+		h.seriesCount.Add(-1)
+		return h.tombstoneHandle()
+	}
+
 	candidate := &HistogramHandle{
 		histogram:   h,
 		bucketCount: make([]atomic.Uint64, len(h.opts.Buckets)+1),
@@ -157,18 +167,11 @@ func (h *Histogram) WithLabelValues(labelValues ...string) *HistogramHandle {
 
 	actual, loaded := h.series.LoadOrStore(hash, candidate)
 	if loaded {
+		h.seriesCount.Add(-1)
 		existing := actual.(*HistogramHandle)
 		if labelValuesEqual(existing.labelValues, labelValues) {
 			return existing
 		}
-		return h.tombstoneHandle()
-	}
-
-	h.seriesCount.Add(1)
-
-	if h.opts.MaxSeriesPerMetric > 0 && h.seriesCount.Load() > int64(h.opts.MaxSeriesPerMetric) {
-		h.series.Delete(hash)
-		h.seriesCount.Add(-1)
 		return h.tombstoneHandle()
 	}
 
@@ -206,7 +209,12 @@ func (h *Histogram) UnregisterSeries(labelValues ...string) bool {
 	if !labelValuesEqual(entry.labelValues, labelValues) {
 		return false
 	}
-	h.series.Delete(hash)
+	// Only the caller that actually removes this entry may release its
+	// slot: two racing UnregisterSeries calls would otherwise both
+	// decrement seriesCount and let the metric exceed its series cap.
+	if !h.series.CompareAndDelete(hash, entry) {
+		return false
+	}
 	h.seriesCount.Add(-1)
 	entry.stale.Store(true)
 	return true
